@@ -1,6 +1,6 @@
 (* EXTRACT-Z: c19 run_c19 *)
 (* Executable entry point of the C19 mesh-reader correspondence: token view -> outcome. *)
-From OM Require Import Base.Lists Base.Wire Maths.BinCodec Geom.MeshCount.
+From OM Require Import Base.Lists Base.Wire Maths.BinCodec Geom.MeshCount Geom.ReaderCounts.
 Local Open Scope Z_scope.
 
 Definition getTok : dec mtok :=
@@ -12,9 +12,21 @@ Definition outMesh (r : mres (list (list Z) * list (list Z))) : wire :=
   | MErr e => [e]
   | MOk (pts, trs) => [0; zn (length pts)] ++ flat_map (fun p => flat_map outW p) pts ++ [zn (length trs)] ++ flat_map (fun t => t) trs
   end.
+Definition getOptZ : dec (option Z) := do f <- getZ; do v <- getZ; ret (if f =? 0 then None else Some v).
+Definition getOptD : dec (option Z) := do f <- getZ; do lo <- getZ; do hi <- getZ; ret (if f =? 0 then None else Some ((lo mod W32) + W32 * (hi mod W32))).
+Definition getRtok : dec rtok := do i <- getOptZ; do d <- getOptD; do w <- getZ; ret {| r_int := i; r_dbl := d; r_word := w |}.
+Definition getRstream : dec rstream := do n <- getN; getMany n (do k <- getN; getMany k getRtok).
+(* .mesh coordinates are 32-bit float words: printed as (word, 0) *)
+Definition outMeshF (r : mres (list (list Z) * list (list Z))) : wire :=
+  match r with
+  | MErr e => [e]
+  | MOk (pts, trs) => [0; zn (length pts)] ++ flat_map (fun p => p) pts ++ [zn (length trs)] ++ flat_map (fun t => t) trs
+  end.
 Definition run_c19 (w : wire) : wire :=
   match w with
   | 1 :: w' => run_dec (do n <- getN; getMany n getTok) w' (fun ts => outMesh (read_tri ts))
   | 2 :: w' => run_dec (do n <- getN; getMany n getTok) w' (fun ts => outMesh (read_off ts))
+  | 3 :: w' => run_dec getRstream w' (fun s => outMesh (read_bnd s))
+  | 4 :: w' => run_dec (do n <- getN; getZs n) w' (fun bs => outMeshF (read_mesh bs))
   | _ => [-1]
   end.
